@@ -27,6 +27,14 @@ stated — below that `static_cast<int_t>` of an `int` intermediate wraps silent
   `MakeFractionSpec.classify` (listed in `findings/C17.json`) the model's result is faithful,
   and inside them it is not.
 
+* component types that are CNL numbers (last section): the generic model `makeFractionC` over a component
+  description `Comp`; `C17_comp_sat_in_range`, `C17_comp_exact_in_range`, `C17_comp_checked` (what the component
+  arithmetic returns, all digit counts), `C17_generic_exit_prelude`, `C17_generic_negative_by_negation` (all formats,
+  all components), `C17_generic_builtin_sweep` / `C17_generic_builtin_witnesses` (generic = built-in model on the
+  sweep and the class witnesses) and kernel-evaluated instances (`C17_sat31_at_limit`, `C17_trap31_at_limit`,
+  `C17_trap40_below_max`, `C17_trap40_at_max`, `C17_wide128_exact`).  Generic = built-in for *all* inputs, and
+  faithfulness of the wrapper lines outside the classes, are covered by correspondence only.
+
 Not proved (stays with the correspondence sweep): termination and the error bound for all inputs
 outside the defect classes — no unbounded termination argument over floating-point comparisons is
 attempted; positivity of the denominators is *not* an invariant (a jump length computed in
@@ -262,5 +270,145 @@ theorem C17_defect_sound (F : Fmt) (I : IntTy) (x : FVal) (fuel : Nat) (c : Defe
 example : classify binary32 i32 (binary32.ofDyadic false 3 (-2)) 100 = none := by decide +kernel
 example : classify binary32 i32 w_negden 100 = some (.clause .denPositive) := by decide +kernel
 example : classify binary32 i32 w_tenth 100 = some .notExactRoundTrip := by decide +kernel
+
+
+/-! ## component types that are CNL numbers (`makeFractionC`)
+
+The generic model replaces the built-in integer operations by those of a component description `Comp`
+(`wide_integer`, `overflow_integer` with a saturating / trapping / throwing tag, `elastic_integer`,
+`rounding_integer`).  Proved for every format, every component description and every input: what the
+component arithmetic returns (`C17_comp_*`), exactness of the prelude's exits, negation.  The agreement of
+`makeFractionC F (Comp.builtin D)` with `makeFractionX F ⟨D+1, true⟩` is proved on the small-ratio sweep
+(`C17_generic_builtin_sweep`) and checked by the driver on every built-in correspondence line; for all inputs it
+is **not proved** (covered by correspondence only), and neither is faithfulness of the generic model outside the
+defect classes beyond the kernel-evaluated instances below. -/
+
+/-- an arithmetic result or conversion that is returned at all by a saturating component is in range -/
+theorem C17_comp_sat_in_range (C : Comp) (k : UB) (v w : Int) (h : C.out .sat k v = .ok w) :
+    C.lowest ≤ w ∧ w ≤ C.max := by
+  have hlm : C.lowest ≤ C.max := by
+    unfold Comp.lowest Comp.max
+    have : (0 : Int) < 2 ^ C.digits := Int.pow_pos (by decide)
+    omega
+  unfold Comp.out at h
+  by_cases hr : C.lowest ≤ v ∧ v ≤ C.max
+  · simp only [hr, and_self, if_true] at h
+    injection h with h; subst h; exact hr
+  · simp only [hr, if_false] at h
+    injection h with h; subst h
+    by_cases hl : v < C.lowest
+    · simp only [hl, if_true]; exact ⟨Int.le_refl _, hlm⟩
+    · simp only [hl, if_false]; exact ⟨hlm, Int.le_refl _⟩
+
+/-- … and it is the exact result whenever that is in range: saturation only acts on overflow -/
+theorem C17_comp_exact_in_range (C : Comp) (m : OvMode) (k : UB) (v : Int) (h : C.lowest ≤ v ∧ v ≤ C.max) :
+    C.out m k v = .ok v := by
+  unfold Comp.out
+  simp only [h, and_self, if_true]
+
+/-- a trapping / throwing / built-in component never returns a value for an out-of-range result -/
+theorem C17_comp_checked (C : Comp) (m : OvMode) (hm : m = .ub ∨ m = .trap ∨ m = .throw) (k : UB) (v w : Int)
+    (h : C.out m k v = .ok w) : w = v ∧ C.lowest ≤ v ∧ v ≤ C.max := by
+  unfold Comp.out at h
+  by_cases hr : C.lowest ≤ v ∧ v ≤ C.max
+  · simp only [hr, and_self, if_true] at h
+    injection h with h; exact ⟨h.symm, hr⟩
+  · simp only [hr, if_false] at h
+    rcases hm with hm | hm | hm <;> subst hm <;> simp at h
+
+/-- `overflow_integer<int, saturated_overflow_tag>`, `overflow_integer<int, trapping_overflow_tag>`,
+`overflow_integer<wide_integer<40>, trapping_overflow_tag>`, `wide_integer<128>` -/
+def sat31 : Comp := ⟨31, 32, .sat, .sat, false, .ub, 0⟩
+def trap31 : Comp := ⟨31, 32, .trap, .trap, false, .ub, 0⟩
+def trap40 : Comp := ⟨40, 41, .trap, .trap, false, .ub, 0⟩
+def wide128 : Comp := ⟨128, 160, .keep, .keep, false, .unknown, 32⟩
+
+example : sat31.out .sat .signedOverflow (2 ^ 31) = .ok (2 ^ 31 - 1) := by decide +kernel
+example : trap31.out .trap .signedOverflow (2 ^ 31) = .trap true := by decide +kernel
+
+/-- exits of the prelude test equality, whatever the component type -/
+theorem C17_generic_exit_prelude (F : Fmt) (C : Comp) (d : FVal) (f : Frac) (e : Exit)
+    (h : mfInitC F C d = .ok (.ret f e)) : (e = .left0 ∨ e = .right0) ∧ fCmp .eq (fracToFC F C f) d = true := by
+  unfold mfInitC at h
+  by_cases hm : fCmp .le d (C.toF F C.max) = false
+  · simp [hm] at h
+  · simp only [hm, if_false] at h
+    cases hl : C.ofF d with
+    | ok l =>
+      simp only [hl, bind, Res.bind] at h
+      cases hr0 : C.ar (l + 1) with
+      | ok r0 =>
+        simp only [hr0] at h
+        cases hr : C.st r0 with
+        | ok r =>
+          simp only [hr, pure] at h
+          by_cases h1 : fCmp .eq (fracToFC F C ⟨l, 1⟩) d = true
+          · simp [h1] at h
+            refine ⟨Or.inl h.2.symm, ?_⟩; rw [← h.1]; exact h1
+          · simp only [h1, if_false] at h
+            by_cases h2 : fCmp .eq (fracToFC F C ⟨r, 1⟩) d = true
+            · simp [h2] at h
+              refine ⟨Or.inr h.2.symm, ?_⟩; rw [← h.1]; exact h2
+            · simp [h2] at h
+        | _ => simp [hr] at h
+      | _ => simp [hr0] at h
+    | _ => simp [hl, bind, Res.bind] at h
+
+example : mfInitC binary64 trap40 (binary64.ofInt (2 ^ 40 - 2)) = .ok (.ret ⟨2 ^ 40 - 2, 1⟩ .left0) := by decide +kernel
+
+theorem C17_generic_negative_by_negation (F : Fmt) (C : Comp) (d : FVal) (fuel : Nat) (h : fCmp .lt d F.zero = true) :
+    makeFractionC F C d fuel =
+      (mfPosC F C d.neg fuel >>= fun r => C.ar (-r.1.num) >>= fun nn => pure (⟨nn, r.1.den⟩, r.2)) := by
+  unfold makeFractionC
+  simp only [h, if_true]
+
+/-- the generic model with the built-in component description is the built-in model (small-ratio sweep) -/
+def genericAgrees (F : Fmt) (D : Nat) (d : FVal) : Bool :=
+  (makeFractionC F (Comp.builtin D) d 64).map (·.1) == makeFraction F ⟨D + 1, true⟩ d 64
+
+def genericSweepOK (F : Fmt) (D Q : Nat) : Bool :=
+  (List.range Q).all fun q0 => (List.range (3 * (q0 + 1) + 1)).all fun p =>
+    genericAgrees F D (F.div (F.ofInt p) (F.ofInt (q0 + 1 : Nat))) && genericAgrees F D (F.div (F.ofInt (-(p : Int))) (F.ofInt (q0 + 1 : Nat)))
+
+theorem C17_generic_builtin_sweep : genericSweepOK binary32 31 8 = true := by decide +kernel
+
+/-- … and on the witnesses of the defect classes (undefined behaviour, assertion, negative denominator, zero) -/
+theorem C17_generic_builtin_witnesses :
+    genericAgrees binary32 31 w_ub = true ∧ genericAgrees binary32 31 w_ub_ordinary = true ∧
+    genericAgrees binary32 31 w_assert = true ∧ genericAgrees binary32 31 w_negden = true ∧
+    genericAgrees binary32 31 w_zero = true ∧ genericAgrees binary32 31 w_inexact = true ∧
+    genericAgrees binary64 31 (binary64.ofInt 2147483647) = true := by decide +kernel
+
+/-! ### kernel-evaluated instances for the wrapper kinds -/
+
+/-- 2^-31 with saturating 31-digit components: the jump length `n0 = 2^31` saturates to `max`; the result
+`1/(2^31−1)` is faithful — where the built-in component is undefined (`witness_ub`) -/
+theorem C17_sat31_at_limit : makeFractionC binary32 sat31 w_ub 100 = .ok (⟨1, 2147483647⟩, .jumpEq) ∧
+    Faithful (compTy sat31) w_ub ⟨1, 2147483647⟩ := by decide +kernel
+
+/-- the same input traps with a trapping component -/
+theorem C17_trap31_at_limit : makeFractionC binary32 trap31 w_ub 100 = .trap true := by decide +kernel
+
+/-- `max − 1` with trapping 40-digit components: `x + 1 = max` is a valid component, the result is `x/1` -/
+theorem C17_trap40_below_max : makeFractionC binary64 trap40 (binary64.ofInt (2 ^ 40 - 2)) 100 = .ok (⟨2 ^ 40 - 2, 1⟩, .left0) ∧
+    makeFractionC binary64 trap40 (binary64.ofInt (-(2 ^ 40 - 2))) 100 = .ok (⟨-(2 ^ 40 - 2), 1⟩, .left0) := by decide +kernel
+
+/-- `max` itself: the right bound `max + 1` is computed before anything is compared (class `ub_floor_is_max`) -/
+theorem C17_trap40_at_max : makeFractionC binary64 trap40 (binary64.ofInt (2 ^ 40 - 1)) 100 = .trap true := by decide +kernel
+
+/-- `wide_integer<128>`: 0.5, −0.75 and 10.25 are exact -/
+theorem C17_wide128_exact :
+    makeFractionC binary64 wide128 (binary64.ofDyadic false 1 (-1)) 100 = .ok (⟨1, 2⟩, .mid) ∧
+    (makeFractionC binary64 wide128 (binary64.ofDyadic true 3 (-2)) 100).map (·.1) = .ok ⟨-3, 4⟩ ∧
+    (makeFractionC binary64 wide128 (binary64.ofDyadic false 41 (-2)) 100).map (·.1) = .ok ⟨41, 4⟩ := by decide +kernel
+
+/-- the multi-word conversion to floating point rounds after every limb, so it is not the correctly rounded
+conversion: on 2^56 + 2^32 + 1 the two differ in `float` (the low limb is absorbed first) -/
+example : wide128.toF binary32 (2 ^ 24 * 2 ^ 32 + 2 ^ 32 + 1) ≠ binary32.ofInt (2 ^ 24 * 2 ^ 32 + 2 ^ 32 + 1) := by decide +kernel
+
+/-- classification of the wrapper kinds through the same classes -/
+example : classifyC binary32 sat31 w_ub 100 = none := by decide +kernel
+example : classifyC binary32 trap31 w_ub 100 = some .ubSearch := by decide +kernel
+example : classifyC binary64 trap40 (binary64.ofInt (2 ^ 40 - 1)) 100 = some .ubFloorMax := by decide +kernel
 
 end Cnl.C17
